@@ -173,3 +173,49 @@ func zzH_C18_ratelimit_interval_reset(t *zzT) {
 		t.Reach("no_reset")
 	}
 }
+
+// C18.c under the real concurrency of the stream handlers: every inbound stream runs in its own
+// goroutine and calls increaseCounter and then checkLimit, which take the counter's mutex separately.
+// A peer is already AT the limit; two further messages of it are handled concurrently — all
+// interleavings of the four critical sections. Whatever the interleaving, sending more than `limit`
+// messages within the interval is penalised at least once, and the counter is reset by the penalty.
+//
+//zz:opt loop=4000 sched=2 join=1 blockfree=0 schedule=1
+//zz:stub time.Now zzStubNow
+func zzH_C18_ratelimit_concurrent_streams(t *zzT) {
+	limit := t.Range("limit", 0, 2)
+	penalty := 10
+	p, _ := zzNewPeer()
+	rl := zzNewRateLimit(p, limit, penalty)
+	if t.Symbolic() {
+		zzClockSec = 1_700_000_000
+	}
+	bare, _ := zzAddrs(0)
+	id := zzPeerID(0)
+	for i := 0; i < limit; i++ { // bring the peer to the limit, sequentially: no penalty yet
+		rl.increaseCounter(zzProcA, id)
+		if err := rl.checkLimit(zzProcA, id, bare); err != nil {
+			t.Fail("setup: checkLimit")
+		}
+	}
+	t.Assert(zzScoreOf(p.connGater, zzIP0) == 0, "limit messages are not penalised")
+	var wg sync.WaitGroup
+	for s := 0; s < 2; s++ {
+		wg.Add(1)
+		go func(s int) {
+			defer wg.Done()
+			if !t.Symbolic() && s == 1 {
+				time.Sleep(time.Millisecond)
+			}
+			rl.increaseCounter(zzProcA, id)
+			if !t.Symbolic() {
+				time.Sleep(5 * time.Millisecond) // natively: both streams increase before either checks
+			}
+			_ = rl.checkLimit(zzProcA, id, bare)
+		}(s)
+	}
+	wg.Wait()
+	t.Assert(zzScoreOf(p.connGater, zzIP0) >= penalty, "limit+2 messages within the interval are penalised whatever the interleaving of the two streams")
+	t.Assert(rl.rpcMessageCounters[zzProcA].counters[id] <= 1, "the penalty resets the counter (at most the one message handled after it remains)")
+	t.Reach("end")
+}
